@@ -17,7 +17,14 @@ RULE = ("kinds: gen (PlatePermutation / SampleSegregating / Pairwise through gen
         "0, 0.1, 0.25, 0.5, 1, random floats, out of range), rholdout (create_random_holdout), sparse, filter; random screens with "
         "duplicate conditions, single-agent rows, 1-6 unobserved plates of sizes 1-7, an observed part, several samples with few "
         "experiments; every rng / heappop / argsort answer of the real run is recorded and fed to the model; full row lists (order, "
-        "plate labels, masks) compared.  Non-trivial: at least one unobserved experiment; distinct by case description.")
+        "plate labels, masks) compared.  Non-trivial: at least one unobserved experiment; distinct by case description.  Gap round: screens "
+        "with up to 7 samples, NaN / inf / -0.0 / subnormal / float32-rounded observation values (10 %), screens carrying the mappings of a "
+        "larger universe (20 %: the hold-out's Screen(...) calls then run the encoders' existing-mapping branch); hold-out on plates of "
+        "9-30 experiments with 0.1, 0.3, 0.7, 1/3, 0.05 ... and the count judged against the EXACT rational ceiling (the float product "
+        "may round down to an integer: 0.1 x 10 -> 1 accepted); purity: after every operation the caller's screen is re-read and must be "
+        "unchanged; kind cliprep: prepare_retrospective_simulation.main with --plate-generator / --plate-smoother (every shipped class, "
+        "parameters through --*-param) and multiset conservation of (sample, treatments, doses, value) between the filtered input and "
+        "training + test (equality when no smoother).")
 THEOREMS = {
     "C11_model_is_source_generate_plates": "the hand-written wrapper model `wrap f` equals, for every inner generator f (in particular the shipped ones: generate_plates g), every screen and every answer stream, the Gallina translation of the whole method RetrospectivePlateGenerator.generate_plates regenerated from /repo's current core.py on this run (Generated/SrcRetro.v)",
     "C11_model_is_source_smooth_plates": "likewise for RetrospectivePlateSmoother.smooth_plates and every inner smoother (in particular smooth_plates sm for every shipped smoother)",
@@ -160,15 +167,32 @@ def gen(rng, tier):
         yield dict(kind="smooth", cls=cls, params=params, screen=sd, seed=rng.randrange(10 ** 6))
     for _ in range(110 * k):
         fr = rng.choice([0.0, 0.1, 0.25, 0.5, 1.0, 0.0, 0.1, 0.25, 0.5, 1.0, 0.75, 0.3, 1 / 3, round(rng.random(), 3), rng.random(), 1.5, -0.25])
-        yield dict(kind=rng.choice(["holdout", "holdout", "holdout", "rholdout"]), fraction=fr, screen=L.gen_screen(rng), seed=rng.randrange(10 ** 6))
+        big = rng.random() < 0.3
+        if big:     # plates of 9-30 experiments with the fractions whose float product rounds to an integer the exact product exceeds
+            fr = rng.choice([0.1, 0.3, 0.7, 0.9, 0.05, 0.15, 0.35, 1 / 3, 0.1 + 1e-9, 0.2, 0.6, round(rng.random(), 2)])
+            if rng.random() < 0.4:      # just above / below j / size for a size that occurs: the ceiling moves by one within 1e-12 .. 1e-7
+                sz = rng.choice([9, 10, 10, 11, 20, 30])
+                fr = min(1.0, max(0.0, rng.randrange(1, sz) / sz + rng.choice([1e-9, 1e-7, 1e-12, -1e-9, 1e-9])))
+        yield dict(kind=rng.choice(["holdout", "holdout", "holdout", "rholdout"]), fraction=fr,
+                   screen=L.gen_screen(rng, style="big_plates") if big else L.gen_screen(rng), seed=rng.randrange(10 ** 6))
     for _ in range(25 * k):
         yield dict(kind="sparse", reveal=rng.random() < 0.5, screen=L.gen_screen(rng, all_observed=rng.random() < 0.9), seed=rng.randrange(10 ** 6))
     for _ in range(25 * k):
         yield dict(kind="filter", screen=L.gen_screen(rng), seed=0)
-    for _ in range(24 * k):
-        yield dict(kind="cliprep", screen=L.gen_screen(rng, all_observed=True, style=rng.choice(["one_sample_plates", "mixed", "many_plates"])),
-                   fraction_text=rng.choice(["0", "0.0", "0.1", "0.25", "0.5", "1", "1.0", "1", "0.75"]), init=rng.random() < 0.3,
-                   seed=rng.randrange(10 ** 6))
+    for i in range(40 * k):
+        d = dict(kind="cliprep", screen=L.gen_screen(rng, all_observed=True, style=rng.choice(["one_sample_plates", "mixed", "many_plates"])),
+                 fraction_text=rng.choice(["0", "0.0", "0.1", "0.25", "0.5", "1", "1.0", "1", "0.75"]), init=rng.random() < 0.3,
+                 seed=rng.randrange(10 ** 6))
+        if i % 5 >= 2:      # every shipped generator / smoother selected ON THE COMMAND LINE (--plate-generator / --plate-smoother + --*-param)
+            d["pgen"] = rng.choice([None, ["PlatePermutationPlateGenerator", {}],
+                                    ["SampleSegregatingPermutationPlateGenerator", dict(max_plate_size=rng.choice([1, 2, 3, 5]))],
+                                    ["PairwisePlateGenerator", dict(subset_size=rng.choice([1, 2]), anchor_size=rng.choice([0, 1]))]])
+            d["psm"] = rng.choice([None, ["MergeMinPlateSmoother", dict(min_size=rng.choice([2, 3, 4, 6]))],
+                                   ["MergeTopBottomPlateSmoother", dict(n_iterations=rng.choice([1, 2]))],
+                                   ["FixedSizeSmoother", dict(plate_size=rng.choice([1, 2, 3]))], ["OptimalSizeSmoother", {}],
+                                   ["NPlatePerCellLineSmoother", dict(min_n_cell_line_plates=rng.choice([1, 2]))],
+                                   ["BatchieEnsemblePlateSmoother", dict(min_size=rng.choice([2, 4]), n_iterations=1, min_n_cell_line_plates=rng.choice([1, 2]))]])
+        yield d
 
 
 def _run_cliprep(desc):
@@ -194,6 +218,12 @@ def _run_cliprep(desc):
         argv = ["prep", "--data", src, "--training-output", tr, "--test-output", te, "--holdout-fraction", desc["fraction_text"], "--seed", str(desc["seed"])]
         if desc.get("init"):
             argv += ["--initial-plate-generator", "SparseCoverPlateGenerator", "--initial-plate-generator-param", "reveal_single_treatment_experiments=False"]
+        for opt, sel in (("--plate-generator", desc.get("pgen")), ("--plate-smoother", desc.get("psm"))):
+            if sel:
+                argv += [opt, sel[0]]
+                feats.append(sel[0])
+                for kk, vv in sorted(sel[1].items()):
+                    argv += [opt + "-param", "%s=%s" % (kk, vv)]
         r = common.impl_call(lambda: common.run_cli_main(cli, argv))
         if isinstance(r, ImplError):
             return dict(wire=None, impl=None, pred=None, features=feats + ["refused", "trivial"])
@@ -213,9 +243,21 @@ def _run_cliprep(desc):
             if pred is None and held[pname] != want:
                 pred = "holdout-count: --holdout-fraction %s: plate %r of %d unobserved experiments contributed %d to the hold-out, ceil(fraction x size) = %d" % (
                     desc["fraction_text"], pname, size, held[pname], want)
-        if pred is None and a.size + b.size != built.size:
-            # the combination filter may drop rows before the split; only a LOSS beyond it would show as a multiset difference
-            pass
+        # conservation through the whole command: every written experiment is an experiment of the combination-filtered input with the
+        # same sample, treatments, doses and value (the filter's own reference: an experiment stays iff each of its treatments is the
+        # control or occurs in an all-non-control experiment); without a smoother none is lost
+        strip3 = lambda r: L.key([r[0], r[2], r[3]])
+        inp = screenlib.canon_rows(built)
+        ctrl = desc["screen"]["ctrl"]
+        sel = {t_ for r in inp if all(x is not None for x in L.tids(r, ctrl)) for t_ in L.tids(r, ctrl)}
+        want = Counter(strip3(r) for r in inp if all(x is None or x in sel for x in L.tids(r, ctrl)))
+        got = Counter(map(strip3, screenlib.canon_rows(a) + screenlib.canon_rows(b)))
+        if pred is None and got - want:
+            pred = "cli-invented-experiment: training + test hold %d experiments that are not (filtered) input experiments with the same sample / treatments / doses / value: %s" % (
+                sum((got - want).values()), common.short(list((got - want).elements()), 200))
+        if pred is None and not desc.get("psm") and want - got:
+            pred = "cli-lost-experiment: no smoother was selected but %d (filtered) input experiments are in neither output: %s" % (
+                sum((want - got).values()), common.short(list((want - got).elements()), 200))
         return dict(wire=None, impl=None, pred=pred, features=feats)
     finally:
         shutil.rmtree(d, ignore_errors=True)
@@ -228,6 +270,7 @@ def run(desc):
     pred = None
     if not isinstance(ex["impl"], ImplError) and ex["inp"] is not None:
         pred = L.pred_conserve(desc, ex["inp"], ex["impl"])
+    pred = pred or ex.get("impure")
     return dict(wire=ex["wire"], impl=ex["impl"], pred=pred, features=L.features(desc, ex), cmp=ex["cmp"])
 
 
